@@ -573,14 +573,103 @@ Proof.
     eapply Hbody; eassumption.
 Qed.
 
+(** ** Replayed headers *)
+Definition frame_eq_but_phs (s s1 : kstate) : Prop :=
+  st_hdrs s1 = st_hdrs s /\ v_h (k_vot s1) = v_h (k_vot s) /\ v_r (k_vot s1) = v_r (k_vot s) /\
+  v_h (k_com s1) = v_h (k_com s) /\ v_r (k_com s1) = v_r (k_com s).
+Lemma fbp_refl s : frame_eq_but_phs s s.
+Proof. repeat split. Qed.
+
+Lemma cinv_adv_jump_until ih ivs fuel : forall s r,
+  cinv ih ivs s -> cinv ih ivs (jump_until fuel s r) /\ adv s (jump_until fuel s r).
+Proof.
+  induction fuel as [|f IH]; intros s r H; cbn [jump_until]; [split; [exact H|apply adv_refl]|].
+  destruct (_ <? _); [|split; [exact H|apply adv_refl]].
+  destruct (IH (jump_voting_round s) r (cinv_jump _ _ _ H)) as [H1 A1].
+  split; [exact H1|eapply adv_trans; [eapply adv_jump; exact H|exact A1]].
+Qed.
+
+Lemma replay_checks_good ih ivs s hd r :
+  cinv ih ivs s -> v_h (k_vot s) = hd_height hd -> hd_ok hd = true -> vs_ok (hd_next hd) = true ->
+  hd_height hd + 1 < two64 ->
+  negb (hd_height hd =? k_init_h s) && negb (bytes_eqb (hd_prev hd) (chdr_hash s)) = false ->
+  ph_good s (fake_ph hd r).
+Proof.
+  intros H Hh Hok Hnext Hb Hprev.
+  unfold ph_good, fake_ph. cbn. splits; try assumption; [congruence|].
+  intros Hne. destruct H as (Hi1&_&_&_&_&_&_&_&_&_&Hch). unfold chain_ok in Hch. unfold chdr_hash in Hprev.
+  destruct (k_chdr s) as [ch|].
+  - exists ch. split; [reflexivity|].
+    apply andb_false_iff in Hprev as [Hp|Hp].
+    + apply negb_false_iff in Hp. apply N.eqb_eq in Hp. contradiction.
+    + apply negb_false_iff in Hp. apply bytes_eqb_eq in Hp. exact Hp.
+  - exfalso. destruct Hch as (_&_&_&Hv). apply Hne. rewrite <- Hh, Hv. symmetry. exact Hi1.
+Qed.
+
+Lemma cinv_replay_insert ih ivs s hd r s1 :
+  cinv ih ivs s -> ph_good s (fake_ph hd r) -> replay_insert s hd r = Ok s1 ->
+  cinv ih ivs s1 /\ frame_eq_but_phs s s1.
+Proof.
+  intros H Hgood. unfold replay_insert.
+  destruct (existsb _ (v_phs _)); [intros E; inversion E; subst; split; [exact H|apply fbp_refl]|].
+  destruct (existsb _ (st_rounds s)); [discriminate|].
+  intros E; inversion E; subst. split; [|unfold frame_eq_but_phs; cbn; repeat split].
+  destruct H as (Hi1&Hi2&Hi3&Hnh&Hnr&Hnhr&Hvv&Hvn&Hokv&Hphs&Hch).
+  unfold cinv. cbn. splits; try assumption.
+  unfold phs_good in *. cbn. intros q [Hq|Hq].
+  - apply in_app_or in Hq as [Hq|[Hq|[]]]; [exact (Hphs q (or_introl Hq))|subst q; exact Hgood].
+  - exact (Hphs q (or_intror Hq)).
+Qed.
+
+Lemma cinv_handle_replay ih ivs s0 hd cp s' res :
+  cinv ih ivs s0 -> hd_height hd + 1 < two64 ->
+  handle_replay s0 hd cp = Ok (s', res) -> cinv ih ivs s' /\ adv s0 s'.
+Proof.
+  intros H0 Hb. unfold handle_replay.
+  destruct (negb (hd_height hd =? _)); [intros E; inversion E; subst; split; [exact H0|apply adv_refl]|].
+  destruct (cp_round cp <? _); [discriminate|].
+  destruct (cinv_adv_jump_until ih ivs (N.to_nat (cp_round cp - v_r (k_vot s0))) s0 (cp_round cp) H0) as [H A].
+  set (s := jump_until _ s0 _) in *.
+  destruct ((v_r (k_vot s) =? cp_round cp) && (v_h (k_vot s) =? hd_height hd)) eqn:Hpos; cbn [negb]; [|discriminate].
+  apply andb_true_iff in Hpos as [Hr Hh]. apply N.eqb_eq in Hr, Hh.
+  assert (Hsame : forall r0, Ok (s, r0) = Ok (s', res) -> cinv ih ivs s' /\ adv s0 s')
+    by (intros r0 E; inversion E; subst; split; assumption).
+  destruct (hd_ok hd) eqn:Hok; cbn [negb]; [|apply Hsame].
+  destruct (negb (hd_height hd =? k_init_h s) && negb (bytes_eqb (hd_prev hd) (chdr_hash s))) eqn:Hprev; [apply Hsame|].
+  destruct (valset_equal (hd_vals hd) (v_vals (k_vot s)) && vs_ok (hd_vals hd)); cbn [negb]; [|apply Hsame].
+  destruct (vs_ok (hd_next hd)) eqn:Hnext; cbn [negb]; [|apply Hsame].
+  destruct (fold_left _ (cp_proofs cp) ([], true)) as [temp allv].
+  destruct (negb allv); [apply Hsame|].
+  fold (replay_insert s hd (cp_round cp)).
+  unfold bind at 1. destruct (replay_insert s hd (cp_round cp)) as [s1|] eqn:Hins; [|discriminate].
+  pose proof (replay_checks_good _ _ _ _ (cp_round cp) H Hh Hok Hnext Hb Hprev) as Hgood.
+  destruct (cinv_replay_insert _ _ _ _ _ _ H Hgood Hins) as [H1 F1].
+  assert (A1 : adv s0 s1).
+  { eapply adv_trans; [exact A|]. destruct F1 as (F1a&F1b&F1c&F1d&F1e).
+    unfold adv. rewrite F1a, F1b, F1c, F1d, F1e. repeat split; try lia; auto. apply rs_refl. }
+  destruct (pm_get temp (hd_hash hd)); [|intros E; inversion E; subst; split; assumption].
+  unfold bind at 1. destruct (byz_majority _); [|discriminate].
+  destruct (_ <? _); [intros E; inversion E; subst; split; assumption|].
+  unfold bind. destruct (check_voting_precommit_shift _) as [s3|] eqn:Hc; [|discriminate].
+  intros E; inversion E; subst.
+  match type of Hc with check_voting_precommit_shift ?X = _ => set (s2 := X) in * end.
+  assert (F2 : frame_eq s1 s2) by (unfold s2, frame_eq, pos_eq; cbn; repeat split).
+  destruct (cinv_check_voting _ _ _ _ (cinv_frame _ _ _ _ F2 H1) Hc) as [H3 A3].
+  split; [exact H3|]. eapply adv_trans; [exact A1|]. eapply adv_trans; [apply adv_frame; exact F2|exact A3].
+Qed.
+
 (** ** Every reachable state (with bounded header heights in the inputs) *)
 Definition op_bounded (o : op) : Prop :=
-  match o with OpPH p => ph_bounded p | _ => True end.
+  match o with
+  | OpPH p => ph_bounded p
+  | OpReplay x _ => hd_height x + 1 < two64
+  | _ => True
+  end.
 
 Lemma cinv_step ih ivs s o s' res :
   cinv ih ivs s -> op_bounded o -> step s o = Ok (s', res) -> cinv ih ivs s' /\ adv s s'.
 Proof.
-  intros H Hb. destruct o as [p|m|m]; cbn [step].
+  intros H Hb. destruct o as [p|m|m|x cp]; cbn [step]; [| | |apply cinv_handle_replay; assumption].
   - unfold handle_ph. destruct (ph_key p).
     + apply cinv_handle_ph_loop; assumption.
     + intros E; inversion E; subst. split; [exact H|apply adv_refl].
